@@ -15,6 +15,7 @@
 package main
 
 import (
+	"reflect"
 	"encoding/json"
 	"flag"
 	"fmt"
@@ -135,10 +136,57 @@ func (c *fileCtx) passA() {
 			eds = append(eds, edit{c.off(st.Pos()), c.off(st.Pos()), fmt.Sprintf("verifYield(%q); ", site)})
 			c.stats["yield"]++
 		}
+		// hasAtomic: the expression calls sync/atomic (package functions, or the Load/Store/
+		// CompareAndSwap/Swap methods of the atomic types) - a point where another goroutine's
+		// update of shared state becomes visible, hence a scheduling point
+		hasAtomic := func(n ast.Node) bool {
+			if n == nil || reflect.ValueOf(n).IsNil() {
+				return false
+			}
+			found := false
+			ast.Inspect(n, func(x ast.Node) bool {
+				if _, ok := x.(*ast.FuncLit); ok {
+					return false
+				}
+				ce, ok := x.(*ast.CallExpr)
+				if !ok {
+					return true
+				}
+				if se, ok := ce.Fun.(*ast.SelectorExpr); ok {
+					if id, ok := se.X.(*ast.Ident); ok && id.Name == "atomic" {
+						found = true
+					}
+					switch se.Sel.Name {
+					case "Load", "Store", "CompareAndSwap", "Swap":
+						found = true
+					}
+				}
+				return !found
+			})
+			return found
+		}
 		var visitList func(list []ast.Stmt)
 		visitList = func(list []ast.Stmt) {
 			for _, st := range list {
 				switch s := st.(type) {
+				case *ast.AssignStmt:
+					for _, r := range s.Rhs {
+						if hasAtomic(r) {
+							yield(s)
+							break
+						}
+					}
+				case *ast.ReturnStmt:
+					for _, r := range s.Results {
+						if hasAtomic(r) {
+							yield(s)
+							break
+						}
+					}
+				case *ast.IfStmt:
+					if hasAtomic(s.Cond) || (s.Init != nil && hasAtomic(s.Init)) {
+						yield(s)
+					}
 				case *ast.SendStmt:
 					yield(s)
 				case *ast.ExprStmt:
